@@ -429,6 +429,19 @@ func TestVerif_C12_UDPMuxModel(t *testing.T) {
 				}
 			}
 		}
+		// a lazy application reads rarely: datagrams pile up unread, also on connections that are then removed
+		lazyReads := rapid.IntRange(0, 2).Draw(rt, "lazyReader") == 0
+		drainNow := func(where string) {
+			if !lazyReads || rapid.IntRange(0, 3).Draw(rt, "readNow") == 0 {
+				drainAll(where)
+			}
+		}
+		dropUnread := func(c *c12ModelConn) {
+			if len(c.expect) > 0 {
+				lbl["removed-with-unread-datagrams"] = true
+			}
+			c.expect = nil // what was queued on a connection that ends is gone with it
+		}
 		nOps := rapid.IntRange(1, 60).Draw(rt, "nOps")
 		for i := 0; i < nOps; i++ {
 			op := rapid.SampledFrom([]string{"getConn", "getConn", "secondHandle", "write", "write", "write", "inbound", "inbound", "inbound", "inbound", "remove", "closeHandle", "muxClose"}).Draw(rt, "op")
@@ -613,11 +626,12 @@ func TestVerif_C12_UDPMuxModel(t *testing.T) {
 					continue
 				}
 				c := l[rapid.IntRange(0, len(l)-1).Draw(rt, "which")]
-				drainAll(where + " (before)")
+				drainNow(where + " (before)")
 				mux.RemoveConnByUfrag(c.ufrag)
 				for _, x := range conns {
 					if x.ufrag == c.ufrag && !x.removed {
 						unbind(x)
+						dropUnread(x)
 					}
 				}
 				lbl["remove-by-ufrag"] = true
@@ -628,7 +642,7 @@ func TestVerif_C12_UDPMuxModel(t *testing.T) {
 					continue
 				}
 				c := l[rapid.IntRange(0, len(l)-1).Draw(rt, "which")]
-				drainAll(where + " (before)")
+				drainNow(where + " (before)")
 				for k, x := range c.handles {
 					if x != nil {
 						_ = x.Close()
@@ -648,6 +662,7 @@ func TestVerif_C12_UDPMuxModel(t *testing.T) {
 					// closing the last handle ends that connection only: the other family's connection of the same
 					// ufrag keeps its own handles and stays registered
 					unbind(c)
+					dropUnread(c)
 					for _, x := range conns {
 						if x.ufrag == c.ufrag && x != c && !x.removed {
 							lbl["close-last-handle-with-live-sibling-family"] = true
@@ -657,15 +672,16 @@ func TestVerif_C12_UDPMuxModel(t *testing.T) {
 				}
 				ops = append(ops, fmt.Sprintf("closeHandle(%s,v6=%v left=%d)", c.ufrag, c.v6, c.open))
 			case "muxClose":
-				drainAll(where + " (before)")
+				drainNow(where + " (before)")
 				_ = mux.Close()
 				muxClose = true
 				for _, x := range conns {
 					unbind(x)
+					dropUnread(x)
 				}
 				ops = append(ops, "muxClose")
 			}
-			drainAll(where)
+			drainNow(where)
 			// address bindings of removed/closed connections must be gone. The mux's close watcher removes them
 			// asynchronously (registration first, bindings second), so this is a bounded wait, not a snapshot.
 			// (Also after mux.Close: the watchers of the connections it closed forget their bindings.)
@@ -698,12 +714,13 @@ func TestVerif_C12_UDPMuxModel(t *testing.T) {
 				}
 			}
 		}
+		drainAll("end of the history")
 		var labels []string
 		for l := range lbl {
 			labels = append(labels, l)
 		}
 		nontrivial := lbl["address-takeover"] || (lbl["remove-by-ufrag"] || lbl["close-last-handle"]) || lbl["v4-mapped-alias"]
-		desc := fmt.Sprintf("addrPort=%v universal=%v %s", flavourAP, universal, strings.Join(ops, "; "))
+		desc := fmt.Sprintf("addrPort=%v universal=%v lazyReader=%v %s", flavourAP, universal, lazyReads, strings.Join(ops, "; "))
 		st.Record(vfHashStr(desc), nontrivial, labels...)
 		if nontrivial && st.WantSample() {
 			st.Sample(func() string { return desc })
